@@ -17,8 +17,9 @@ func (i *Item) DedupeItems() error {
 		}
 		if existing, ok := urls[node.url.String()]; ok {
 			// Keep the completed item, and never drop a node together with its subtree in
-			// favour of a childless duplicate: the URLs below it would be lost for good
-			if existing.status != ItemCompleted && !existing.IsSeed() && (node.status == ItemCompleted || (len(existing.children) == 0 && len(node.children) > 0)) {
+			// favour of a childless duplicate: the URLs below it would be lost for good.
+			// A node that was already fetched wins over a fresh duplicate, which would be fetched again
+			if existing.status != ItemCompleted && !existing.IsSeed() && (node.status == ItemCompleted || (existing.status == ItemFresh && node.status != ItemFresh) || (len(existing.children) == 0 && len(node.children) > 0)) {
 				existing.parent.RemoveChild(existing)
 				urls[node.url.String()] = node
 			} else {
